@@ -54,8 +54,21 @@ Fixpoint indexed_from {A} (i : nat) (l : list A) : list (nat * A) :=
 Definition indexed_rels (g : graph) : list (nat * rkey) := indexed_from 0 (g_rels g).
 Definition mem_nat (x : nat) (l : list nat) : bool := existsb (Nat.eqb x) l.
 
-(* a partial match: the row so far and the relationships (positions in g_rels) it uses *)
-Definition pm := (row * list nat)%type.
+(* a partial match: the row so far and the relationships it uses (position in g_rels and key) *)
+Definition pm := (row * list (nat * rkey))%type.
+
+(* may relationship i (with key e) not be used again?
+   Reference: it was used (instance identity).
+   Faithful (path_usage.rs path_alias_contains_edge): the *key* was used at least as often as its
+   multiplicity - while every parallel entry of the key is still enumerated, so a chain that comes
+   back over a key of multiplicity m > 1 is counted more than once per relationship. *)
+Definition blocked (md : mode) (g : graph) (used : list (nat * rkey)) (i : nat) (e : rkey) : bool :=
+  match md with
+  | Reference => existsb (fun u => Nat.eqb (fst u) i) used
+  | Faithful =>
+      let c := length (filter (fun u => n3_eqb (snd u) e) used) in
+      negb (Nat.eqb c 0) && Nat.leb (multiplicity g e) c
+  end.
 
 (* binding a node variable: consistent with an existing binding, labels satisfied *)
 Definition bind_node (g : graph) (np : npat) (id : N) (m : pm) : list pm :=
@@ -78,14 +91,13 @@ Definition start_nodes (g : graph) (np : npat) (m : pm) : list pm :=
 Definition node_of (m : pm) (x : var) : option N :=
   match row_get (fst m) x with Some (VNode id) => Some id | _ => None end.
 
-(* `blocked` are the relationships that may not be used again *)
-Definition hop (g : graph) (from : var) (rp : rpat) (np : npat) (m : pm) : list pm :=
+Definition hop (md : mode) (g : graph) (from : var) (rp : rpat) (np : npat) (m : pm) : list pm :=
   match node_of m from with
   | None => []
   | Some n =>
       flat_map (fun ie : nat * rkey =>
         let '(i, e) := ie in
-        if mem_nat i (snd m) || negb (type_ok (rp_types rp) e) then [] else
+        if blocked md g (snd m) i e || negb (type_ok (rp_types rp) e) then [] else
         let ends :=
           match rp_dir rp with
           | DOut => if rk_src e =? n then [rk_dst e] else []
@@ -94,23 +106,23 @@ Definition hop (g : graph) (from : var) (rp : rpat) (np : npat) (m : pm) : list 
                      (if (rk_dst e =? n) && negb (rk_src e =? rk_dst e) then [rk_src e] else [])
           end in
         flat_map (fun d =>
-          bind_node g np d (row_with (fst m) (rp_var rp) (value_of_rkey e), i :: snd m)) ends)
+          bind_node g np d (row_with (fst m) (rp_var rp) (value_of_rkey e), (i, e) :: snd m)) ends)
       (indexed_rels g)
   end.
 
-Fixpoint hops (g : graph) (from : var) (hs : list (rpat * npat)) (ms : list pm) : list pm :=
+Fixpoint hops (md : mode) (g : graph) (from : var) (hs : list (rpat * npat)) (ms : list pm) : list pm :=
   match hs with
   | [] => ms
-  | (rp, np) :: t => hops g (np_var np) t (flat_map (hop g from rp np) ms)
+  | (rp, np) :: t => hops md g (np_var np) t (flat_map (hop md g from rp np) ms)
   end.
 
-Definition match_pattern (g : graph) (p : pattern) (m : pm) : list pm :=
-  hops g (np_var (p_start p)) (p_hops p) (start_nodes g (p_start p) m).
+Definition match_pattern (md : mode) (g : graph) (p : pattern) (m : pm) : list pm :=
+  hops md g (np_var (p_start p)) (p_hops p) (start_nodes g (p_start p) m).
 
 (* Faithful: each comma-separated pattern starts with no relationship blocked *)
 Definition match_patterns (md : mode) (g : graph) (ps : list pattern) (r : row) : list row :=
   map fst (fold_left (fun ms p =>
-             flat_map (fun m => match_pattern g p (match md with Faithful => (fst m, []) | Reference => m end)) ms)
+             flat_map (fun m => match_pattern md g p (match md with Faithful => (fst m, []) | Reference => m end)) ms)
            ps [(r, [])]).
 
 Definition pattern_vars (ps : list pattern) : list var :=
